@@ -352,7 +352,7 @@ func Prelude() string {
 (declare-fun itoa (Int) Str)
 (declare-fun atoi (Str) Int)
 (declare-fun atoi_ok (Str) Bool)
-(assert (forall ((n Int)) (! (and (atoi_ok (itoa n)) (= (atoi (itoa n)) n)) :pattern ((itoa n)))))
+(assert (forall ((n Int)) (! (and (atoi_ok (itoa n)) (= (atoi (itoa n)) n) (>= (Str_len (itoa n)) 1)) :pattern ((itoa n)))))
 (define-fun trunc ((x Real)) Int (ite (>= x 0.0) (to_int x) (- (to_int (- x)))))
 `
 }
